@@ -578,8 +578,9 @@ def _linsolve(mat, rhs):
     left running wave at CFL 5-10 on a few hundred cells); QR factorization in that case"""
     try:
         x = np.linalg.solve(mat, rhs)
-        if np.linalg.norm(rhs - mat @ x) <= 1.e-10 * (np.linalg.norm(mat, 1) * np.linalg.norm(x) + np.linalg.norm(rhs)):
-            return x
+        with np.errstate(all='ignore'): # maximum norms: a grown solution (1e170) overflows the euclidean ones
+            if np.max(np.abs(rhs - mat @ x)) <= 1.e-10 * (np.max(np.sum(np.abs(mat), axis=1)) * np.max(np.abs(x)) + np.max(np.abs(rhs))):
+                return x
         if not np.all(np.isfinite(x)) and not (np.all(np.isfinite(mat)) and np.all(np.isfinite(rhs))):
             return x # non finite system: nothing to improve
     except np.linalg.LinAlgError:
